@@ -148,6 +148,19 @@ func runRenew(sc NScenario, ca *fakeCA, workdir string, deadline time.Duration) 
 		opts.WriteIdentityToFile = &target
 		defer os.RemoveAll(workdir)
 	}
+	// a scripted dir.Write failure: while that fetch runs, the base directory is moved away and a
+	// regular file takes its place (MkdirAll then fails); it is put back once the loop is quiet again
+	away := workdir + ".away"
+	blocked := false
+	restore := func() {
+		if blocked {
+			os.Remove(workdir)
+			os.Rename(away, workdir)
+			blocked = false
+		}
+	}
+	defer restore()
+	defer os.RemoveAll(away)
 	is.onReq = func(idx int) {
 		is.mu.Lock()
 		is.reqs[idx].Anchors = func() int { ta.mu.Lock(); defer ta.mu.Unlock(); return ta.version }()
@@ -155,6 +168,12 @@ func runRenew(sc NScenario, ca *fakeCA, workdir string, deadline time.Duration) 
 		is.mu.Unlock()
 		if sc.Dir {
 			out.PubAtReq = append(out.PubAtReq, readPub(target, "req"+strconv.Itoa(idx), reqs))
+		}
+		if sc.Dir && idx < len(sc.Script) && sc.Script[idx].Kind == kWriteErr {
+			os.MkdirAll(workdir, 0o755)
+			if os.Rename(workdir, away) == nil && os.WriteFile(workdir, []byte("not a directory"), 0o644) == nil {
+				blocked = true
+			}
 		}
 	}
 	s := spiffe.New(opts)
@@ -199,6 +218,7 @@ func runRenew(sc NScenario, ca *fakeCA, workdir string, deadline time.Duration) 
 		return false
 	}
 	observe := func(j int) {
+		restore()
 		type res struct {
 			tok string
 			ok  bool
@@ -304,7 +324,7 @@ func rel(t time.Time) int64 { return t.Sub(T0).Nanoseconds() }
 
 // good says whether request r made fetchIdentityCertificate return an SVID.
 func (sc NScenario) good(r reqRec) bool {
-	return r.Kind == kOK || (r.Kind == kAnchorErr && !sc.Dir)
+	return r.Kind == kOK || ((r.Kind == kAnchorErr || r.Kind == kWriteErr) && !sc.Dir)
 }
 
 // implLine canonicalises what was observed, in the format of the model driver's answer.
@@ -343,7 +363,7 @@ func modelLine(sc NScenario, o nOutcome) string {
 		switch it.Kind {
 		case kOK:
 			script = append(script, fmt.Sprintf("o:%d:%d", nb, na))
-		case kAnchorErr:
+		case kAnchorErr, kWriteErr:
 			script = append(script, fmt.Sprintf("a:%d:%d", nb, na))
 		default:
 			script = append(script, "f")
